@@ -308,6 +308,11 @@ func runBudget(tier string) time.Duration {
 
 func runAll(p *Property, items []*item, deadline time.Time) (unstarted int) {
 	w := p.Workers
+	if os.Getenv("VERIF_SEQUENTIAL") != "" {
+		// /verif/check re-runs a run whose process died with workers in parallel one case at a time,
+		// so that the death can be attributed to an input (current_case.txt)
+		w = 1
+	}
 	if w <= 1 {
 		for _, it := range items {
 			if time.Now().After(deadline) {
